@@ -22,6 +22,9 @@
 //	Q pre extra vals i    | nil or index in base                   PtrAt
 //	S i l1;l2;…           | elements [ALIAS]                       Stripe ("-" = no lists)
 //
+// The scale stream (slices of 2^k-1, 2^k, 2^k+1 elements up to 8193, element types other than int,
+// named inputs, bounded outputs):  X <op> <ty> <rep> <pre> <extra> <n> <vgen> <arg>, see scale.go.
+//
 // Zero-size elements (known finding F13; corpus only -- these calls are linear in len unless they
 // panic at once):
 //
@@ -175,6 +178,12 @@ func views(base []int, pre, n int, rs [][]int) string {
 func exec(in string) string {
 	f := strings.Fields(strings.ReplaceAll(in, "_", " ")) // "_" for blanks: inputs reported by the extra steps
 	curOp = f[0]
+	if f[0] == "X" {
+		if len(f) > 1 {
+			curOp = "X" + f[1]
+		}
+		return execX(f)
+	}
 	if f[0] == "S" {
 		i, _ := strconv.Atoi(f[1])
 		var ls [][]int
@@ -415,7 +424,7 @@ func emit(g *tr.G, k string, l layout, vals []int, arg int, nontrivial bool, tag
 }
 
 func main() {
-	tr.Main("C17: exhaustive small scope - every length n <= 10 (quick) / 12 (thorough) under three base layouts (no slack; 2 elements before and 3 spare after; 4 spare after) plus the nil slice: every keep mask for Partition, every k in [-n-2, n+2] for Rotate (n <= 40/64), every chunk size / batch count in [-2, n+3], every Head/Tail count in [-2, n+extra+3], every At/PtrAt index in [-n-2, n+2], Stripe over all tuples of up to three lists of length <= 3; then random larger cases (duplicate values, lengths to 200). Returned slices are observed as offset/len/append-overwrites-input; the whole base array is re-read after every call. A case is non-trivial when the slice has at least two elements; distinct = distinct input lines.",
+	tr.Main("C17: exhaustive small scope - every length n <= 10 (quick) / 12 (thorough) under three base layouts (no slack; 2 elements before and 3 spare after; 4 spare after) plus the nil slice: every keep mask for Partition, every k in [-n-2, n+2] for Rotate (n <= 40/64), every chunk size / batch count in [-2, n+3], every Head/Tail count in [-2, n+extra+3], every At/PtrAt index in [-n-2, n+2], Stripe over all tuples of up to three lists of length <= 3; then the scale stream (X lines: slices of 2^k-1, 2^k, 2^k+1 elements for k <= 13 and a few random long ones as windows of larger arrays under seven layouts, over five element types -- int, ints at the ends of the range, strings, 40-byte structs with pointers, pointers --, Rotate by 0, +-1, +-n/2, +-(n-1), +-n, out of range, +-31..65, +-255..257, +-4095..4097 and k with gcd(k, n) > 1, Chunks/Batches with n around 1, sqrt(len), len/2, len-1, len, len+1 and powers of two, Partition under 19 keep patterns (all, none, alternating, ends only, all but the ends, long runs, kept prefix / suffix, periodic) with the whole array digested afterwards, Head/Tail/At/PtrAt at the boundaries and at the ends of int, Stripe over thousands of lists and over long lists; outputs as digests and run-length encoded views); then random larger cases (duplicate values, lengths to 200). Returned slices are observed as offset/len/append-overwrites-input; the whole base array is re-read after every call. A case is non-trivial when the slice has at least two elements; distinct = distinct input lines.",
 		exec, func(g *tr.G) {
 			if g.Prop == "C17x" {
 				genExtra(g)
@@ -502,6 +511,8 @@ func main() {
 					g.Emit(fmt.Sprintf("S %d %s", i, t), t != "-", "stripe-exhaustive")
 				}
 			}
+			// sizes around powers of two up to 8193, element types other than int (scale.go)
+			genScale(g)
 			// random, larger, duplicate values
 			rnd := func(maxN, maxV int) []int {
 				n := g.R.Intn(maxN + 1)
